@@ -33,7 +33,7 @@ def harnesses():
 
 HARNESSES = harnesses()
 MANIFEST = {
-    "text": "Coq theorems about an executable machine of vivid publish/subscribe whose histories are ALL interleavings of Subscribe / "
+    "text": "Two-node model incl. publications the sharing codec cannot encode (QPubL): they reach exactly the subscriptions of the topic on the publisher's node (C10_remote_local_only_publication_partial). Coq theorems about an executable machine of vivid publish/subscribe whose histories are ALL interleavings of Subscribe / "
             "UnSubscribe / Publish / direct sends / restart / terminate / spawn calls by any actors with the processing steps of the single "
             "subscription actor (explicit FIFO request queue; Subscribe blocks its caller until answered): C10_exactly_once (handling a "
             "publish request appends exactly one user message per subscription of the topic present in the table, sender = publisher, "
